@@ -127,7 +127,8 @@ def arrays_equal(cfg, a, b):
 def gen_cfg(rng, small=True, modes=None):
     for _ in range(200):
         n, d = rng.choice([(1, 1), (100, 1), (200, 3), (10 ** 6, 3), (10 ** 8, 7), (25 * 10 ** 6, 3), (48000, 1),
-                           (1000, 7), (2 ** 31 - 1, 10 ** 9), (10, 1), (1000, 1), (15, 1), (3, 1), (25, 1), (30000, 1), (40000, 3)])
+                           (1000, 7), (2 ** 31 - 1, 10 ** 9), (10, 1), (1000, 1), (15, 1), (3, 1), (25, 1), (30000, 1), (40000, 3),
+                           (50000, 1)])
         sc, fc = rng.choice([(1, 20), (2, 400), (3600, 1000), (1, 1), (10, 2500), (1, 1000), (3600, 60000), (1, 250),
                              (2, 100), (1, 5), (3600, 1), (3600, 2)])
         pf = fc * n // (1000 * d)
@@ -136,6 +137,10 @@ def gen_cfg(rng, small=True, modes=None):
             continue
         t = rng.choice([315532800, 951782400, 1500000000, 1499999999, 1709164800, 2147483648, 4102444799,
                         rng.randrange(315532800, 4102444800)]) * 1000
+        if n >= 48000 and d == 1 and rng.random() < 0.5:
+            # a start late enough (years 8300 .. 9600) that every sample index exceeds 2**53: an index
+            # computed through float64 anywhere is then off by one or two
+            t = rng.choice([240000000000, 200000000000 + rng.randrange(0, 4 * 10 ** 10)]) * 1000 + rng.choice([0, 1, 999])
         tb = rng.choice([(t // fc) * fc, (t // (sc * 1000)) * sc * 1000, t + rng.randrange(0, 1000)])
         start = cdiv(tb * n, 1000 * d) + rng.choice([-2, -1, 0, 0, 1, 2, pf // 2])
         if start < 0:
